@@ -321,7 +321,130 @@ class Scenario:
         return parts
 
 
+class I2(Interface):
+    pass
+
+
+class Ans:
+    """a cached answer that can be watched with a weak reference"""
+    def __call__(self, ob):
+        return ("F", 0)
+
+
+def run_fail_after_success(case):
+    """A successful call fills the cache (the answer holds an ``Ans`` we watch through a weak reference);
+    then calls for the SAME ``provided`` fail on a cache miss in the way ``case['fail']`` says (the
+    overridden ``_uncached_*`` raises / the lazy ``required`` raises / a ``required`` element is not a
+    specification, on a real AdapterRegistry); then ``changed()`` and all our references are dropped.
+    Whatever the failing calls leaked keeps the detached cache dictionary, and with it the answer, alive:
+    ``growth_objs`` = 100 x the number of watched answers that are still alive."""
+    import weakref
+    from zope.interface.adapter import AdapterRegistry
+    entry, fail, flavour = case["entry"], case["fail"], case["flavour"]
+    watched = []
+    fails = {"on": False}
+
+    def ans():
+        a = Ans()
+        watched.append(weakref.ref(a))
+        return a
+
+    if flavour == "AR":
+        reg = AdapterRegistry()
+        reg.register([I1], P1, "", ans())
+        reg.subscribe([I1], P1, ans())
+        lk = reg
+    else:
+        base_cls = LookupBase if flavour == "LB" else VerifyingBase
+
+        class Probe(base_cls):
+            def _uncached_lookup(self, required, provided, name=""):
+                if fails["on"] and fail == "uncached":
+                    raise Boom("uncached")
+                return ans()
+
+            def _uncached_lookupAll(self, required, provided):
+                if fails["on"] and fail == "uncached":
+                    raise Boom("uncached")
+                return (("", ans()),)
+
+            def _uncached_subscriptions(self, required, provided):
+                if fails["on"] and fail == "uncached":
+                    raise Boom("uncached")
+                return [ans()]
+
+        lk = Probe()
+        if flavour == "VB":
+            class Reg:
+                pass
+
+            class Base:
+                _generation = 1
+
+            reg0 = Reg()
+            reg0.ro = [reg0, Base()]
+            lk._registry = reg0
+            lk.changed(None)
+
+    class Obj:
+        def __init__(self, spec):
+            self.__providedBy__ = spec
+
+    def required_for(spec):
+        if fails["on"] and fail == "lazy":
+            def gen():
+                yield spec
+                raise Boom("lazy")
+            return gen()
+        if fails["on"] and fail == "notspec":
+            return [object()]
+        return [spec]
+
+    def call(spec):
+        if entry == "lookup":
+            return lk.lookup(required_for(spec), P1, "")
+        if entry == "lookup1":
+            return lk.lookup1(object() if (fails["on"] and fail == "notspec") else spec, P1, "")
+        if entry in ("adapter_hook", "queryAdapter"):
+            ob = Obj(spec)
+            return lk.adapter_hook(P1, ob, "") if entry == "adapter_hook" else lk.queryAdapter(ob, P1, "")
+        if entry == "lookupAll":
+            return lk.lookupAll(required_for(spec), P1)
+        return lk.subscriptions(required_for(spec), P1)
+
+    shown = ""
+    try:
+        first = call(I1)
+        ok_first = first is not None
+    except Exception as e:   # noqa
+        ok_first, shown = False, "first call: " + type(e).__name__
+    first = None
+    fails["on"] = True
+    raised = 0
+    syserr = False
+    for _ in range(5):
+        try:
+            call(I2)           # another key of the same per-provided dictionary: a cache miss
+        except SystemError:
+            syserr = True
+        except Exception:   # noqa
+            raised += 1
+    fails["on"] = False
+    if flavour == "AR":
+        lk.unregister([I1], P1, "")
+        lk.unsubscribe([I1], P1)
+    else:
+        lk.changed(None)
+    gc.collect()
+    alive = sum(1 for w in watched if w() is not None)
+    return {"fired": 1 if (watched and (raised or fail == "notspec" and entry in ("lookup1",))) else 0, "owned": True, "extras": [],
+            "notes": [], "answer": 5 if syserr else 3, "shown": shown or "%d of 5 failing calls raised; %d of %d watched answers alive after changed()" % (raised, alive, len(watched)),
+            "second": bool(ok_first), "growth_objs": 100 * alive, "growth_refs": 0, "repeat": 1000}
+
+
 def run_case(case):
+    if case.get("variant") == "fail_after_success":
+        return run_fail_after_success(case)
     sc = Scenario(case)
     if sc.entry == "iface_call" and sc.point == "provided_hash":
         return {"skip": "iface_call needs an interface as provided"}
